@@ -37,9 +37,22 @@ def rand_chunks(rng):
     return [rng.choice((1, 1, 2, 3, 5, 8, 13, 40, 1000)) for _ in range(rng.randint(1, 4))]
 
 
-def rand_script(rng, n, gifts=True):
+def rand_noise(rng, gifts=False):
+    x = rng.random()
+    if x < 0.3:
+        return ["noise", "nop"]
+    if x < 0.6:
+        return ["noise", "raise"]
+    d = 0 if rng.random() < 0.8 else 1
+    return ["noise", ["issue", d, rand_spec(rng, depth=1, allow_gift=(gifts and d == 0))]]
+
+
+def rand_script(rng, n, gifts=True, noise=0.0):
     sc = []
     for _ in range(n):
+        if noise and rng.random() < noise:
+            sc.append(rand_noise(rng, gifts))
+            continue
         x = rng.random()
         if x < 0.36:
             d = 0 if rng.random() < 0.8 else 1
@@ -110,6 +123,55 @@ def failure_behind_gift(rng, variant, resolve, k, chunks):
     return sc
 
 
+def mixed_styles(rng, bursts, chunks):
+    """callRemote and callRemoteOnly mixed within one turn and across turns, from the top level, from inside one
+    remote_ method and from one queued callable"""
+    def spec():
+        return dict(kind=rng.choice(("plain", "plain", "plain", "slow", "late")), only=rng.random() < 0.5,
+                    stalls=rng.choice((0, 0, 0, 1)))
+    sc = []
+    for _ in range(bursts):
+        n = rng.randint(2, 5)
+        how = rng.random()
+        if how < 0.6:
+            sc += [["issue", 0, spec()] for _ in range(n)]
+        elif how < 0.8:
+            sc += [["issue", 1, dict(kind="plain", reenter=[spec() for _ in range(n)])]]
+        else:
+            sc += [["noise", ["issue", 0, spec()]] for _ in range(n)]
+        tail = [["turn"] for _ in range(rng.randint(0, 2))] + [["deliver", rng.choice((0, 0, 1)), chunks] for _ in range(rng.randint(0, 3))] \
+            + [["release", 0] for _ in range(rng.randint(0, 1))]
+        rng.shuffle(tail)
+        sc += tail
+    return sc
+
+
+def rejected_body_chunked(rng, k, c):
+    """calls refused by the receiver's schema at token-header time (a STRING where an int is required) whose body has to
+    be discarded across several small packets, between ordinary calls"""
+    sc = [["issue", 0, dict(kind="plain")]]
+    for _ in range(k):
+        sc.append(["issue", 0, dict(kind="early", body=rng.choice(("short", "long", "echo")), only=rng.random() < 0.2)])
+        sc.append(["issue", 0, dict(kind=rng.choice(("plain", "plain", "late")))])
+    chunks = [c] if rng.random() < 0.7 else [c, rng.choice((1, 2, 3)), c + 1]
+    sc += [["deliver", 0, chunks] for _ in range(2 * k + 1)]
+    sc += [["turn"], ["turn"]]
+    return sc
+
+
+def noisy_batch(rng, k):
+    """one batch of the eventual queue holds, in some order: callables that issue calls, unrelated callables (some of
+    which raise) and -- on a loopback connection -- the bytes of calls issued before"""
+    items = [["noise", ["issue", 0, dict(kind="plain", only=rng.random() < 0.3)]] for _ in range(rng.randint(1, 2))]
+    items += [["noise", rng.choice(("raise", "raise", "nop"))] for _ in range(rng.randint(1, 3))]
+    items += [["issue", 0, dict(kind=rng.choice(("plain", "plain", "slow")), only=rng.random() < 0.3)] for _ in range(k)]
+    rng.shuffle(items)
+    sc = items + [["turn"]]
+    for _ in range(rng.randint(0, 3)):
+        sc += [rng.choice((["noise", "raise"], ["issue", 0, dict(kind="plain")], ["turn"], ["turn"]))]
+    return sc
+
+
 # ------------------------------------------------------------------ direct oracle (no model involved)
 def judge(r):
     """the property evaluated on what the real brokers did: list of (signature, description)"""
@@ -129,6 +191,10 @@ def judge(r):
             bad.append(("oracle/duplicate-entry", "direction %d: a call was entered more than once: entered %r" % (d, ent)))
         elif ent != sorted(ent):
             bad.append(("oracle/order", "direction %d: calls issued in the order %r were entered in the order %r" % (d, ids, ent)))
+        sent = r.get("sent", [[], []])[d]
+        if ent == sorted(set(ent)) and sent != sorted(sent):
+            bad.append(("oracle/order", "direction %d: calls issued in the order %r were handed to the connection in the order %r"
+                        % (d, sorted(sent), sent)))
         # head of line: when c is entered, every earlier call that had been completely received is finished
         seen_q, done = set(), set()
         for e, c in (ev if ent == sorted(set(ent)) else []):      # (an order violation is reported as such)
@@ -160,7 +226,7 @@ def judge(r):
     return bad
 
 
-def report(ctx, impl, name, script, r, bad, seen):
+def report(ctx, impl, name, script, r, bad, seen, loopback=False):
     """shrink the script (once per signature), then record the failures"""
     sig0 = bad[0][0]
     if sig0 not in seen and not sig0.startswith("harness") and len(script) > 2 and not name.startswith("corpus/"):
@@ -168,18 +234,18 @@ def report(ctx, impl, name, script, r, bad, seen):
 
         def still(sc):
             try:
-                return any(sg == sig0 for sg, _ in judge(impl.run_scenario(sc)))
+                return any(sg == sig0 for sg, _ in judge(impl.run_scenario(sc, loopback=loopback)))
             except Exception:
                 return False
         small = common.shrink_list(script, still, max_rounds=60)
         if len(small) < len(script):
-            r2 = impl.run_scenario(small)
+            r2 = impl.run_scenario(small, loopback=loopback)
             bad2 = judge(r2)
             if any(sg == sig0 for sg, _ in bad2):
                 script, r, bad, name = small, r2, bad2, name + " (shrunk)"
     for sig, what in bad:
-        ctx.fail(sig, "%s [scenario %s: %s]" % (what, name, json.dumps(script)[:1500]),
-                 replay=dict(scenario=name, script=script, events=r["events"], issued=r["issued"]),
+        ctx.fail(sig, "%s [scenario %s%s: %s]" % (what, name, " over LoopbackTransport" if loopback else "", json.dumps(script)[:1500]),
+                 replay=dict(scenario=name, script=script, loopback=loopback, events=r["events"], issued=r["issued"]),
                  has_input=not sig.startswith("harness"))
 
 
@@ -240,29 +306,35 @@ def correspond(ctx, runs):
 
 
 def local_correspond(ctx, impl):
-    """LocalReferenceable: calls ordered by the eventual queue alone; model lrun vs the real eventual queue"""
+    """the eventual queue as a channel (LocalReferenceable calls / LoopbackTransport bytes) shared with unrelated
+    callables, raising callables and callables that write when they run: model lrun vs the real queue"""
     cases = []
-    for _ in range(ctx.n(40, 400)):
-        ops = [ctx.rng.choice("IIT") for _ in range(ctx.rng.randint(1, 14))]
-        cases.append(ops)
-    obs = [impl.run_local(ops) for ops in cases]
+    for i in range(ctx.n(120, 1200)):
+        ops = [ctx.rng.choice("IIITTNBBS") for _ in range(ctx.rng.randint(1, 16))]
+        cases.append((("local", "loopback")[i % 2], ops))
+    cases.append(("loopback", list("SBIITBITT")))
+    obs = [impl.run_local(ops, mode) for mode, ops in cases]
+    names = {"I": "LIssue", "T": "LTurn", "N": "LNoise false", "B": "LNoise true", "S": "LSpawnOp"}
     body = "Definition cases : list (list lop) := " + coq_list(
-        [coq_list(["LIssue" if o == "I" else "LTurn" for o in ops]) for ops in cases]) + ".\n" \
+        [coq_list([names[o] for o in ops]) for _, ops in cases]) + ".\n" \
         "Eval vm_compute in map (fun ops => l_entered (lrun ops)) cases.\n"
     try:
         (vals,) = ctx.coq_eval("C04_local", body, requires=REQ)
     except common.CoqEvalError as e:
-        ctx.fail("correspondence-broken", "the local-call model could not be evaluated: " + str(e)[-1500:], has_input=False)
+        ctx.fail("correspondence-broken", "the eventual-channel model could not be evaluated: " + str(e)[-1500:], has_input=False)
         return
-    for ops, o, m in zip(cases, obs, vals):
-        ctx.case(["local", ops], nontrivial=ops.count("I") >= 2 and "T" in ops)
+    for (mode, ops), o, m in zip(cases, obs, vals):
+        ctx.case(["channel", mode, ops], nontrivial=ops.count("I") + ops.count("S") >= 2 and "T" in ops)
+        ctx.hist("channel_mode", mode)
         ctx.traces += 1
         if o != sorted(o) or len(set(o)) != len(o):
-            ctx.fail("oracle/local-order", "LocalReferenceable: calls issued 0..n were entered in the order %r (ops %s)" % (o, "".join(ops)),
-                     replay=dict(ops=ops, entered=o))
+            ctx.fail("oracle/local-order", "%s: items written 0..n through the eventual queue were delivered in the order %r (ops %s: "
+                     "I write, N unrelated callable, B raising callable, S callable that writes, T one turn)"
+                     % ("LocalReferenceable" if mode == "local" else "LoopbackTransport", o, "".join(ops)),
+                     replay=dict(ops=ops, mode=mode, delivered=o))
         if list(m) != o:
-            ctx.fail("correspondence/local", "local-call model %r vs implementation %r on %s" % (m, o, "".join(ops)),
-                     replay=dict(ops=ops, model=m, impl=o), has_input=False)
+            ctx.fail("correspondence/local", "eventual-channel model %r vs implementation %r on %s (%s)" % (m, o, "".join(ops), mode),
+                     replay=dict(ops=ops, mode=mode, model=m, impl=o), has_input=False)
 
 
 def tubs_family(ctx, impl):
@@ -362,13 +434,17 @@ def run(ctx):
     runs = []
     seen_sigs = set()
 
-    def do(name, script):
-        if len(runs) % 40 == 0:
+    ndone = [0]
+
+    def do(name, script, loopback=False):
+        ndone[0] += 1
+        if ndone[0] % 40 == 0:
             impl.settle_gc()
-        r = impl.run_scenario(script)
+        r = impl.run_scenario(script, loopback=loopback)
         sent = [len(r["issued"][d]) for d in (0, 1)]
         interesting = any(k != "plain" or st for d in (0, 1) for _, k, st in r["issued"][d]) or sent[1] > 0
-        ctx.case(script, nontrivial=max(sent) >= 3 and interesting)
+        ctx.case([loopback, script], nontrivial=max(sent) >= 3 and interesting)
+        ctx.hist("transport", "loopback" if loopback else "byte-queue")
         ctx.hist("calls_sent_dir0", min(sent[0], 20))
         for d in (0, 1):
             for _, k, st in r["issued"][d]:
@@ -379,7 +455,9 @@ def run(ctx):
         ctx.hist("script_len", 10 * (len(script) // 10))
         bad = judge(r)
         if bad:
-            report(ctx, impl, name, script, r, bad, seen_sigs)
+            report(ctx, impl, name, script, r, bad, seen_sigs, loopback)
+        if loopback:
+            return r                                # bytes travel in the eventual queue: direct oracle only
         has_gift = any(k == "gift" for d in (0, 1) for _, k, _ in r["issued"][d])
         runs.append((name, script, 0, r))
         if not has_gift and sent[1]:
@@ -391,13 +469,13 @@ def run(ctx):
         for fn in sorted(os.listdir(CORPUS)):
             if fn.endswith(".json"):
                 doc = json.load(open(os.path.join(CORPUS, fn)))
-                r = do("corpus/" + fn, doc["script"])
+                r = do("corpus/" + fn, doc["script"], loopback=bool(doc.get("loopback")))
                 ctx.sample(dict(corpus=fn, entered=[[c for e, c in r["events"][d] if e == "entered"] for d in (0, 1)]))
     if ctx.replay:
         doc = json.load(open(ctx.replay))
         sc = (doc.get("replay") or {}).get("script") or doc.get("script")
         if sc:
-            do("replay", sc)
+            do("replay", sc, loopback=bool((doc.get("replay") or doc).get("loopback")))
     # 2. targeted families
     rng = ctx.rng
     for k in range(2, ctx.n(7, 12)):
@@ -414,13 +492,24 @@ def run(ctx):
                 for rep in range(ctx.n(2, 5)):
                     do("failure-behind-gift-%s-%s-%d-%d" % (variant, resolve, k, rep),
                        failure_behind_gift(rng, variant, resolve, k, rand_chunks(rng)))
+    for c in (1, 2, 3, 4, 5, 7, 11):
+        for k in range(1, ctx.n(3, 5)):
+            for rep in range(ctx.n(1, 4)):
+                do("rejected-body-chunked-%d-%d-%d" % (c, k, rep), rejected_body_chunked(rng, k, c))
+    for i in range(ctx.n(30, 300)):
+        do("mixed-styles-%d" % i, mixed_styles(rng, rng.randint(1, 4), rand_chunks(rng)), loopback=(i % 3 == 2))
+    for i in range(ctx.n(40, 400)):
+        do("noisy-batch-%d" % i, noisy_batch(rng, rng.randint(1, 4)), loopback=(i % 4 != 3))
     # 3. random scripts
     for i in range(ctx.n(260, 6000)):
         n = rng.choice((8, 12, 16, 24, 32, 48))
-        sc = rand_script(rng, n, gifts=rng.random() < 0.6)
+        sc = rand_script(rng, n, gifts=rng.random() < 0.6, noise=rng.choice((0.0, 0.0, 0.1)))
         r = do("random-%d" % i, sc)
         if i < 3:
             ctx.sample(dict(script=sc, entered=[[c for e, c in r["events"][d] if e == "entered"] for d in (0, 1)]))
+    for i in range(ctx.n(80, 1500)):
+        sc = rand_script(rng, rng.choice((8, 12, 16, 24, 32)), gifts=rng.random() < 0.5, noise=rng.choice((0.0, 0.15, 0.3)))
+        do("loopback-random-%d" % i, sc, loopback=True)
     # 3b. real Tubs on the in-memory network, real third-party references (Tub.getReference to a third Tub)
     tubs_family(ctx, impl)
     # 4. correspondence
